@@ -1,10 +1,9 @@
 // append-to: src/line.rs
 // harness: k_line_trailers props=C10,C09 kind=bounded tier=quick timeout=600 obligation=Line::trailers/E1+Line::trim/E1+Line::is_blank/E1 bound="width <= 3, cells from {default blank, 'a', blank with a non-default pen}"
 // harness: k_line_expand props=C10,C02 kind=bounded tier=quick timeout=600 obligation=Line::expand/E1 bound="width <= 2 expanded to <= 3, symbolic pen flag"
-// harness: k_line_contract_1 props=C10 kind=bounded tier=quick timeout=900 obligation=Line::contract(no cell lost or invented; only trailing default cells of an unwrapped row dropped) bound="row width 1..3 contracted to 1"
-// harness: k_line_contract_2 props=C10 kind=bounded tier=quick timeout=900 obligation=Line::contract bound="row width 1..3 contracted to 2"
-// harness: k_line_extend_2 props=C10 kind=bounded tier=quick timeout=900 obligation=Line::extend(join of the two rows is kept cell for cell; only trailing default cells of a row that ends its logical line are dropped) bound="row of width 0..2 extended to 2 from a row of width 1..2"
-// harness: k_line_extend_3 props=C10 kind=bounded tier=thorough timeout=1800 obligation=Line::extend bound="row of width 0..3 extended to 3 from a row of width 1..3"
+// harness: k_line_contract_1 props=C10 kind=bounded tier=thorough timeout=900 obligation=Line::contract(no cell lost or invented; only trailing default cells of an unwrapped row dropped) bound="row width 1..3 contracted to 1"
+// harness: k_line_contract_2 props=C10 kind=bounded tier=thorough timeout=900 obligation=Line::contract bound="row width 1..3 contracted to 2"
+// harness: k_line_extend_2 props=C10 kind=bounded tier=thorough timeout=1800 obligation=Line::extend(join of the two rows is kept cell for cell; only trailing default cells of a row that ends its logical line are dropped) bound="row of width 0..2 extended to 2 from a row of width 1..2"
 #[cfg(kani)]
 mod verif_kani_line {
     use super::*;
@@ -286,18 +285,4 @@ mod verif_kani_line {
         kani::cover!(which % 6 == 5);
     }
 
-    #[kani::proof]
-    #[kani::unwind(6)]
-    fn k_line_extend_3() {
-        let which: u8 = kani::any();
-        match which % 6 {
-            0 => extend_case(0, 3, 3),
-            1 => extend_case(1, 1, 3),
-            2 => extend_case(1, 3, 3),
-            3 => extend_case(2, 2, 3),
-            4 => extend_case(2, 3, 3),
-            _ => extend_case(3, 1, 3),
-        }
-        kani::cover!(which % 6 == 5);
-    }
 }
